@@ -320,6 +320,14 @@ func run(c Case) (v vkit.Verdict) {
 		m := math.Max(math.Abs(float64(q[0])), math.Abs(float64(q[1])))
 		posTol = math.Max(posTol, (1e-13+1.5*jstep*unit)*m)
 	}
+	// which of two nodes is nearer is decided by the positions the library holds, each up to jstep steps per coordinate from
+	// the nominal one: the two distances compared can each be off by that much (both coordinates), so a tie is anything
+	// within twice the displacement of one node
+	tieTol := 1e-12
+	for _, q := range c.Nodes {
+		m := math.Max(math.Abs(float64(q[0])), math.Abs(float64(q[1])))
+		tieTol = math.Max(tieTol, (1e-13+2*math.Sqrt2*jstep*unit)*m)
+	}
 	if c.Bisector {
 		v.Class("query_points_a_hair_apart_across_a_bisector")
 	}
@@ -335,7 +343,7 @@ func run(c Case) (v vkit.Verdict) {
 			// ties: a node's position is only defined up to the tolerance with which link ends are identified
 			// (1e-9 relative; the generator moves link ends by up to a few 1e-13 relative), so any node within that
 			// of the minimum is an admissible end
-			if inNet[i] && math.Hypot(float64(q[0])-float64(p[0]), float64(q[1])-float64(p[1])) <= best+posTol {
+			if inNet[i] && math.Hypot(float64(q[0])-float64(p[0]), float64(q[1])-float64(p[1])) <= best+tieTol {
 				out = append(out, i)
 			}
 		}
